@@ -721,7 +721,7 @@ class C12:
 SAFE_URLS = ["http://tracker.example.com/announce", "udp://t1.example.org:6969/announce",
              "https://example.net:443/ann?key=1&x=y", "http://ex.com/a+b", "http://exämple.com/ä",
              "udp://[::1]:80/announce", "http://x.y/#frag", "http://h/p=q", "wss://tracker.example/socket",
-             "ftp://ftp.example.site/content", "http://h/a:b"]
+             "ftp://ftp.example.site/content", "http://h/a:b", "http://tr.example/announce?tags=a,b", "http://h/x,y;z"]
 SAFE_WORDS = ["hello", "a comment with spaces", "Ünï cødé", "x", "SRC", "k=v", "semi;colon", "日本語", "a:b", "[x]",
               # characters an ini reader may give a meaning of their own when they follow a blank
               "Release #3 ; final", "a ;b", "x # y", "100% done", "%(name)s", "$HOME", "tail = value", "colon: value"]
